@@ -31,6 +31,25 @@ func merge(ms ...map[string]shim) map[string]shim {
 	return out
 }
 
+// sync/atomic values by their SEQUENTIAL meaning (one goroutine): a plain integer variable.  The concurrent claim of
+// C11 is the separate atomic-step machine of Model/SamplerConc.lean.
+var atomicCalls = map[string]shim{
+	"AtomicInt64.Load":            {kind: "self", res: []string{"i64"}},
+	"AtomicInt64.Store":           {kind: "set"},
+	"AtomicInt64.CompareAndSwap":  {kind: "cas", f: "i64"},
+	"AtomicUint64.Load":           {kind: "self", res: []string{"u64"}},
+	"AtomicUint64.Store":          {kind: "set"},
+	"AtomicUint64.Add":            {kind: "addret", f: "u64"},
+	"AtomicUint64.CompareAndSwap": {kind: "cas", f: "u64"},
+}
+
+// time.Time is represented by its UnixNano (int64), time.Duration by its Nanoseconds (int64)
+var timeTypes = map[string]string{"time.Time": "Time", "time.Duration": "Duration"}
+var timeCalls = map[string]shim{
+	"Time.UnixNano":        {kind: "self", res: []string{"i64"}},
+	"Duration.Nanoseconds": {kind: "self", res: []string{"i64"}},
+}
+
 var jsonEncFields = map[string]fieldSpec{
 	"buf":            {"buf", "Buffer"},
 	"spaced":         {"spaced", "bool"},
@@ -56,6 +75,30 @@ func probeFuncs() []transFunc {
 var transSpecs = []transSpec{
 	// the CTR self-test: probe functions of the harness, translated like any whitelisted function
 	{table: "TransProbe", funcs: probeFuncs()},
+	{table: "TransSampler", funcs: []transFunc{
+		{file: "zapcore/sampler.go", name: "fnv32a", lean: "fnv32a"},
+		{file: "zapcore/sampler.go", recv: "counter", name: "IncCheckReset", lean: "IncCheckReset",
+			fields: map[string]fieldSpec{"resetAt": {"resetAt", "AtomicInt64"}, "counter": {"counter", "AtomicUint64"}},
+			types:  timeTypes, calls: merge(atomicCalls, timeCalls)},
+		{file: "zapcore/sampler.go", recv: "sampler", name: "Check", lean: "Check",
+			fields: map[string]fieldSpec{
+				"first": {"first", "u64"}, "thereafter": {"thereafter", "u64"}, "tick": {"tick", "Duration"},
+				"counts": {"counts", "Counters"}, // opaque: only passed to counts.get
+				"hook":   {"hooks", "HookTrace"}, // the decisions the hook was called with, in order
+				"Core":   {"core", "Core"},       // the wrapped core: the entries forwarded to it, in order
+			},
+			types:   map[string]string{"Entry": "struct:Entry", "*CheckedEntry": "CheckedEntry", "time.Time": "Time", "time.Duration": "Duration"},
+			structs: map[string][]fieldSpec{"Entry": {{"Level", "i8"}, {"Message", "string"}, {"Time", "Time"}}},
+			consts:  map[string]string{"_minLevel": "i8:-1", "_maxLevel": "i8:5", "LogDropped": "u32:1", "LogSampled": "u32:2"},
+			calls: map[string]shim{
+				"recv.Enabled": {kind: "ext", f: "Enabled", res: []string{"bool"}},
+				// counts.get(level, message) returns a handle to THE cell whose fields (resetAt, counter) are in the env
+				"Counters.get":          {kind: "ext", f: "counts.get", res: []string{"Counter"}},
+				"Counter.IncCheckReset": {kind: "funOn", f: "IncCheckReset", res: []string{"u64"}},
+				"recv.hook":             {kind: "extfld", f: "hook", flds: []string{"hook"}},
+				"Core.Check":            {kind: "mutext", f: "Core.Check", res: []string{"CheckedEntry"}},
+			}},
+	}},
 	{table: "TransJsonSep", funcs: []transFunc{
 		{file: "zapcore/json_encoder.go", recv: "jsonEncoder", name: "addElementSeparator", lean: "addElementSeparator",
 			fields: jsonEncFields, calls: bufferCalls},
